@@ -859,8 +859,9 @@ func HandleTranAgreed(cc *hotline.ClientConn, t *hotline.Transaction) (res []hot
 	cc.Logger = cc.Logger.With("Name", string(cc.UserName))
 	cc.Logger.Info("Login successful")
 
-	options := t.GetField(hotline.FieldOptions).Data
-	optBitmap := big.NewInt(int64(binary.BigEndian.Uint16(options)))
+	// Some clients send the options as a 4 byte integer (see Field.DecodeInt).
+	options, _ := t.GetField(hotline.FieldOptions).DecodeInt()
+	optBitmap := big.NewInt(int64(options))
 
 	// Check refuse private PM option
 
@@ -1481,9 +1482,10 @@ func HandleSetClientUserInfo(cc *hotline.ClientConn, t *hotline.Transaction) (re
 	}
 
 	// the options field is only passed by the client versions > 1.2.3.
-	options := t.GetField(hotline.FieldOptions).Data
-	if options != nil {
-		optBitmap := big.NewInt(int64(binary.BigEndian.Uint16(options)))
+	if t.GetField(hotline.FieldOptions).Data != nil {
+		// Some clients send the options as a 4 byte integer (see Field.DecodeInt).
+		options, _ := t.GetField(hotline.FieldOptions).DecodeInt()
+		optBitmap := big.NewInt(int64(options))
 
 		cc.Flags.Set(hotline.UserFlagRefusePM, optBitmap.Bit(hotline.UserOptRefusePM))
 		cc.Flags.Set(hotline.UserFlagRefusePChat, optBitmap.Bit(hotline.UserOptRefuseChat))
